@@ -802,8 +802,24 @@ def _python_variables(run, P):
             if attr in getattr(k, "attrs", {}):
                 return k.attrs[attr]
         return None
+    def is_through(v, depth=0):
+        if isinstance(v, ast.Name) and depth < 3:
+            srcs = [a_.value for a_ in ast.walk(f.node) if isinstance(a_, ast.Assign)
+                    and any(isinstance(t_, ast.Name) and t_.id == v.id for t_ in a_.targets)]
+            return bool(srcs) and all(is_through(x, depth + 1) for x in srcs)
+        if isinstance(v, ast.IfExp):
+            return is_through(v.body, depth + 1) and is_through(v.orelse, depth + 1)
+        return (isinstance(v, ast.Subscript) and (dotted(v.value) or "").endswith("_name_manager")) or (
+            isinstance(v, ast.Call) and ".".join((dotted(v.func) or "").split(".")[:2]) == "self._name_manager") \
+            or (isinstance(v, ast.Call) and (dotted(v.func) or "").startswith("super()."))
+
     for r in rets:
         v = r.value
+        if is_through(v):
+            run.ob("C13.reserved", f, r, True,
+                   construct=f"{C.name}.map_variable ({f.qualname}): {norm(r, 60)} is an answer of the name manager",
+                   why="held")
+            continue
         through = (isinstance(v, ast.Subscript) and (dotted(v.value) or "").endswith("_name_manager")) or (
             isinstance(v, ast.Call) and ".".join((dotted(v.func) or "").split(".")[:2]) == "self._name_manager") \
             or (isinstance(v, ast.Call) and (dotted(v.func) or "").startswith("super()."))
